@@ -2,6 +2,7 @@ package mp4
 
 import (
 	"encoding/hex"
+	"fmt"
 	"io"
 
 	"github.com/Eyevinn/mp4ff/bits"
@@ -42,6 +43,9 @@ func DecodeColr(hdr BoxHeader, startPos uint64, r io.Reader) (Box, error) {
 
 // DecodeColrSR decodes a ColrBox from a SliceReader
 func DecodeColrSR(hdr BoxHeader, startPos uint64, sr bits.SliceReader) (Box, error) {
+	if hdr.payloadLen() < 4 {
+		return nil, fmt.Errorf("colr: payload size %d less than 4", hdr.payloadLen())
+	}
 	c := ColrBox{
 		ColorType: sr.ReadFixedLengthString(4),
 	}
@@ -53,13 +57,13 @@ func DecodeColrSR(hdr BoxHeader, startPos uint64, sr bits.SliceReader) (Box, err
 		b := sr.ReadUint8()
 		c.FullRangeFlag = (b & fullRangeBit) == fullRangeBit
 	case ColorTypeRestrictedICCProfile, ColorTypeUnrestrictedICCTProfile:
-		c.ICCProfile = sr.RemainingBytes()
+		c.ICCProfile = sr.ReadBytes(hdr.payloadLen() - 4)
 	case QuickTimeColorParameters:
 		c.ColorPrimaries = sr.ReadUint16()
 		c.TransferCharacteristics = sr.ReadUint16()
 		c.MatrixCoefficients = sr.ReadUint16()
 	default:
-		c.UnknownPayload = sr.RemainingBytes()
+		c.UnknownPayload = sr.ReadBytes(hdr.payloadLen() - 4)
 	}
 	return &c, sr.AccError()
 }
